@@ -116,6 +116,21 @@ func c04Run(sc *C04Scenario) (v *nodeViolation, flags map[string]bool) {
 		c.LockTime++
 		body[at] = &c
 		corrupted = true
+	case "dup":
+		// the last transaction once more: with an odd count this body has the same merkle root
+		body = append(body, body[len(body)-1])
+		corrupted = true
+	}
+	mutatedSameRoot := false
+	if corrupted {
+		ids := make([]bitcoin.Hash32, len(body))
+		for k, tx := range body {
+			ids[k] = *tx.TxHash()
+		}
+		if r, _, _ := verifkit.MerkleBranch(ids, 0); r == a2.Header.MerkleRoot {
+			mutatedSameRoot = true
+			flags["mutated-body-same-root"] = true
+		}
 	}
 	if corrupted {
 		flags["corrupted:"+sc.Corrupt] = true
@@ -141,6 +156,32 @@ func c04Run(sc *C04Scenario) (v *nodeViolation, flags map[string]bool) {
 	evs2 := sn.h2.snapshot()
 	if len(evs2) != before1+len(evs) {
 		return &nodeViolation{"C04/handlers-differ", "the two handlers saw different numbers of notifications"}, flags
+	}
+	if mutatedSameRoot {
+		// the body hashes to the header's root although it is not the block's transaction list: the
+		// node may refuse it; if it takes it, no transaction may be delivered twice and every proof
+		// must verify
+		if sn.node.blocks.LastHeight() == heightBefore {
+			return nil, flags
+		}
+		seenNote := map[bitcoin.Hash32]int{}
+		for _, e := range evs {
+			if e.Kind != "tx" && e.Kind != "update" {
+				continue
+			}
+			seenNote[e.TxID]++
+			if seenNote[e.TxID] > 1 {
+				return &nodeViolation{"C04/mutated-block/delivered-twice", fmt.Sprintf("a block body with its last transaction repeated (%d txs, same merkle root) was accepted and a transaction of it was notified %d times", len(body), seenNote[e.TxID])}, flags
+			}
+			mp := e.State.MerkleProof
+			if mp == nil {
+				return &nodeViolation{"C04/mutated-block/proof-missing", "a notification from a block with a repeated last transaction carries no proof"}, flags
+			}
+			if root, ok := verifkit.VerifyBranch(e.TxID, mp.Index, mp.Path, mp.DuplicatedIndexes); !ok || root != a2.Header.MerkleRoot {
+				return &nodeViolation{"C04/mutated-block/proof-invalid", fmt.Sprintf("a block body with its last transaction repeated (%d txs, same merkle root) was accepted and the proof for index %d does not verify", len(body), mp.Index)}, flags
+			}
+		}
+		return nil, flags
 	}
 	if corrupted {
 		if sn.node.blocks.LastHeight() != heightBefore || sn.node.blocks.Contains(&a2.Hash) {
@@ -241,7 +282,7 @@ func c04Nontrivial(sc *C04Scenario, f map[string]bool) bool {
 	return (len(sc.Rel)+1 >= 3 && f["duplicate-node-on-path"]) || sc.Corrupt != ""
 }
 
-const c04Rule = "one block with 1..n transactions on a synced node: relevant subset and positions drawn (push in an output or an input script), each relevant tx either delivered unconfirmed before or first seen in the block, both block message forms; optionally a corrupted body (tx dropped/added/swapped/altered) under the unchanged header; oracle: independent merkle tree + own proof verifier, index/header/depth checks, differential with MerkleProof.IsValid; non-trivial = >=3 txs with a duplicated node on a proof path, or a corrupted body; distinct by scenario hash"
+const c04Rule = "one block with 1..n transactions on a synced node: relevant subset and positions drawn (push in an output or an input script), each relevant tx either delivered unconfirmed before or first seen in the block, both block message forms; optionally a corrupted body (tx dropped/added/swapped/altered, or the last tx repeated, which keeps the merkle root when the count is odd) under the unchanged header; oracle: independent merkle tree + own proof verifier, index/header/depth checks, differential with MerkleProof.IsValid; non-trivial = >=3 txs with a duplicated node on a proof path, or a corrupted body; distinct by scenario hash"
 
 func TestC04Systematic(t *testing.T) {
 	rep := verifkit.NewReport("C04", "TestC04Systematic", c04Rule+"; systematic sub-run: every block size 1..17 (18 in thorough), each with 8 relevant subsets (all, none-but-last, alternating, singletons at first/middle/last, seen/unseen variants)")
@@ -306,6 +347,26 @@ func TestC04Systematic(t *testing.T) {
 			}
 		}
 	}
+	// every block size once more with its last transaction repeated (same merkle root for odd sizes)
+	for total := 1; total <= maxN; total++ {
+		sc := &C04Scenario{Corrupt: "dup", Parse: total%2 == 0}
+		for i := 0; i < total-1; i++ {
+			sc.Rel = append(sc.Rel, i%4)
+			sc.InIn = append(sc.InIn, i%2 == 0)
+			sc.Seen = append(sc.Seen, i%3 == 0)
+		}
+		v, f := c04Run(sc)
+		rep.Case(verifkit.Hash(sc), c04Nontrivial(sc, f), flagList(f)...)
+		if v != nil && !seen[v.key] {
+			seen[v.key] = true
+			if verifkit.Known(v.key) {
+				rep.Exclude(v.key)
+				continue
+			}
+			rep.AddViolation(v.key, v.what, sc)
+			t.Errorf("%s: %s", v.key, v.what)
+		}
+	}
 	rep.Exhaustive = true
 }
 
@@ -338,7 +399,7 @@ func TestC04Random(t *testing.T) {
 			n = rapid.IntRange(0, 12).Draw(rt, "nsmall")
 		}
 		sc := &C04Scenario{Parse: rapid.Bool().Draw(rt, "parse"), At: rapid.IntRange(0, 70).Draw(rt, "at"),
-			Corrupt: rapid.SampledFrom([]string{"", "", "", "drop", "add", "swap", "alter"}).Draw(rt, "corrupt")}
+			Corrupt: rapid.SampledFrom([]string{"", "", "", "drop", "add", "swap", "alter", "dup"}).Draw(rt, "corrupt")}
 		for i := 0; i < n; i++ {
 			rel := -1
 			if rapid.IntRange(0, 2).Draw(rt, "isrel") == 0 {
